@@ -177,6 +177,12 @@ func (store *ModuleStore) GetModule(name string) (*Module, error) {
 	return m, nil
 }
 
+// DiscardModule removes the named module from this ModuleStore, if present.
+// It is used when a module's body raised during its first import.
+func (store *ModuleStore) DiscardModule(name string) {
+	delete(store.modules, name)
+}
+
 // Gets a module or panics
 func (store *ModuleStore) MustGetModule(name string) *Module {
 	m, err := store.GetModule(name)
